@@ -77,6 +77,12 @@ Definition X (ih : N) (ivs : valset) (s : kstate) : Prop :=
   comvals ih ivs s /\ ne_state s /\ n1 s /\ kok s /\ SI ih ivs (stores_of s).
 Definition J (ih : N) (ivs : valset) (s : kstate) : Prop := INV ih ivs s /\ tinv s /\ X ih ivs s.
 
+(** the four components of a stored position *)
+Definition n_vh (x : N * N * N * N) : N := fst (fst (fst x)).
+Definition n_vr (x : N * N * N * N) : N := snd (fst (fst x)).
+Definition n_ch (x : N * N * N * N) : N := snd (fst x).
+Definition n_cr (x : N * N * N * N) : N := snd x.
+
 (** * The header chain as a lookup table *)
 Lemma hchain_lookup ih top l : hchain ih top l ->
   forall h, ih <= h -> h <= top -> exists x cp, hdr_get l h = Some (x, cp) /\ In (h, (x, cp)) l /\ hd_height x = h.
